@@ -14,7 +14,7 @@ LEVEL = 'exploration'
 CASES_ARE_COUNTED = True
 WALL_CAP_S = 90
 NO_RERUN = True
-TIERS = {'quick': {'runs': 2400, 'budget_s': 50}, 'thorough': {'runs': 200000, 'budget_s': 900}}
+TIERS = {'quick': {'runs': 5000, 'budget_s': 55}, 'thorough': {'runs': 200000, 'budget_s': 900}}
 DDMIN_FIELDS = ('schedule',)
 RULE = ('one run = 2-3 engines with colliding vocabularies (same predicate, atom, script and native names), each with its own seeded history of '
         '5-25 ops (compile+load a script with overwrite on/off, assert_fact, assertz via query, retract k answers, retractall, register_function, '
